@@ -1403,6 +1403,10 @@ func compileTableExpr(context *funcContext, reg int, ex *ast.TableExpr, ec *expc
 				num = FieldsPerFlush
 			}
 			c := (arraycount-1)/FieldsPerFlush + 1
+			if lastvararg && flush == 0 {
+				// every positional item before the open-ended one was flushed already: its values start the next batch
+				c = arraycount/FieldsPerFlush + 1
+			}
 			b := num
 			if islast && isVarArgReturnExpr(field.Value) {
 				b = 0
